@@ -19,7 +19,7 @@ ASSUMPTIONS = [
     'complement idioms accepted: np.setdiff1d(U, x), U[U != x], U[~np.isin(U, x)], np.delete(U, i)',
 ]
 FLOOR = 14
-ANALYSED_FLOORS = {'remove_mean_centrings': 4}
+ANALYSED_FLOORS = {'remove_mean_centrings': 2}
 RULE_FLOORS = {'ACC': 3, 'FOLD-SEP': 4}
 
 CN = 'rdm.calc.calc_rdm_crossnobis'
@@ -31,8 +31,10 @@ def run(ctx, obs):
     from ..rules import sweeps
     sweeps.run(ctx, obs, 'C02')
     prog, dep = ctx.prog, ctx.dep
+    from ..rules.common import call_closure
     for q in (CN, PCV):
-        acc_named(ctx, obs, q)
+        for g in call_closure(ctx, q):
+            acc_named(ctx, obs, g)
         fold_separation(ctx, obs, q)
         labels_and_copy(ctx, obs, q)
     distinct_fold_indices(ctx, obs, CN)
@@ -55,9 +57,28 @@ def _subset_calls(r):
     return [c for c in r.calls if c.attr == 'subset_obs']
 
 
-def fold_separation(ctx, obs, q, rule='FOLD-SEP'):
+def fold_separation(ctx, obs, q0, rule='FOLD-SEP'):
     """in the leave-one-fold-out loop the test selection is the loop's fold, the training selection its complement
-    within the set of folds, and the two kernel operands derive from one selection each"""
+    within the set of folds, and the two kernel operands derive from one selection each.  The loop is looked for in q0 and in the
+    same-module helpers it calls (a split into helpers moves it)."""
+    from ..rules.common import call_closure
+    cands = [g for g in call_closure(ctx, q0) if any(c.in_loops and len(c.node.args) >= 2 for c in _subset_calls(ctx.dep.result(g)))]
+    if not cands:
+        obs.unk(rule, q0, 'leave-one-fold-out loop', 'no loop over subset_obs selections found in the function or its helpers',
+                where(ctx.prog, ctx.prog.func(q0), ctx.prog.func(q0).node))
+        return
+    found_comp = False
+    for q in cands:
+        found_comp = _fold_separation_in(ctx, obs, q, rule, report_missing=False) or found_comp
+    if not found_comp:
+        f0 = ctx.prog.func(q0)
+        obs.bad(rule, q0, 'training selection is the complement of the held-out fold within the set of folds',
+                'no subset_obs call inside the fold loop selects the complement of the current fold '
+                '(accepted idioms: setdiff1d(folds, fold), folds[folds != fold], folds[~isin(folds, fold)])',
+                where(ctx.prog, f0, f0.node))
+
+
+def _fold_separation_in(ctx, obs, q, rule, report_missing=True):
     prog = ctx.prog
     f = prog.func(q)
     r = ctx.dep.result(q)
@@ -74,9 +95,20 @@ def fold_separation(ctx, obs, q, rule='FOLD-SEP'):
         def is_fold(e):
             return any(t.startswith('ITER:') for t in expr_sources(r, e)) and not isinstance(e, ast.Call)
 
-        def is_universe(e):
+        def is_universe(e, call=c):
             s = expr_sources(r, e)
-            return not any(t.startswith('ITER:') for t in s) and any('unique' in t for t in s if t.startswith('CALL:'))
+            if any(t.startswith('ITER:') for t in s):
+                return False
+            if any('unique' in t for t in s if t.startswith('CALL:')):
+                return True
+            # the collection the enclosing fold loop iterates over (also when it is a parameter of a helper)
+            for lp in _enclosing_loops(f.node, call.node):
+                it = lp.iter
+                if isinstance(it, ast.Call) and isinstance(it.func, ast.Name) and it.func.id in ('enumerate', 'tqdm') and it.args:
+                    it = it.args[0]
+                if isinstance(e, ast.Name) and isinstance(it, ast.Name) and it.id == e.id:
+                    return True
+            return False
         # follow a single-definition name to its expression
         sel_e = _follow(r, sel)
         comp = is_complement_of(sel_e, is_universe, is_fold)
@@ -106,17 +138,12 @@ def fold_separation(ctx, obs, q, rule='FOLD-SEP'):
         obs.check(one_comp, rule, q, f'{desc}: one operand is the held-out fold, the other its complement',
                   f'operands derive from {sorted(lt)} / {sorted(rt)}; complement selections are {sorted(comp_tok)}',
                   '', where(prog, f, node))
-    if comp_calls:
-        for c in comp_calls:
-            obs.ok(rule, q, f'training selection #{c.ordinal} is the complement of the held-out fold', norm(c.node)[:100],
-                   where(prog, f, c.node))
-    else:
-        obs.bad(rule, q, 'training selection is the complement of the held-out fold within the set of folds',
-                'no subset_obs call inside the fold loop selects the complement of the current fold '
-                '(accepted idioms: setdiff1d(folds, fold), folds[folds != fold], folds[~isin(folds, fold)])',
-                where(prog, f, f.node))
+    for c in comp_calls:
+        obs.ok(rule, q, f'training selection #{c.ordinal} is the complement of the held-out fold', norm(c.node)[:100],
+               where(prog, f, c.node))
     for c in fold_calls:
         obs.ok(rule, q, f'selection #{c.ordinal} is the current fold', norm(c.node)[:100], where(prog, f, c.node))
+    return bool(comp_calls)
 
 
 def _follow(r, e, depth=0):
